@@ -661,6 +661,15 @@ pub struct GeomOut {
     pub meta: String,
 }
 
+/// the distance of the shape's farthest point from its origin, from the items alone (0 for point particles)
+fn oracle_radius(items: &Items) -> f64 {
+    match items {
+        Items::Segs(v) => v.iter().map(|s| (s[0] * s[0] + s[1] * s[1]).sqrt().max((s[2] * s[2] + s[3] * s[3]).sqrt())).fold(0., f64::max),
+        Items::Discs(v) => v.iter().map(|d| (d[0] * d[0] + d[1] * d[1]).sqrt() + d[2]).fold(0., f64::max),
+        _ => 0.,
+    }
+}
+
 fn add(f: &mut Vec<Finding>, p: &'static str, w: String) {
     if f.len() < 12 {
         f.push(Finding { property: p, what: w });
@@ -764,7 +773,10 @@ pub fn run_state_case(spec: &Spec, out: &mut dyn Write) -> GeomOut {
     let ratio = js["cell"]["ratio"].as_f64().unwrap();
     let (cs, sn) = (angle.cos(), angle.sin());
     let items = st.items();
-    let (radius, sarea) = st.radius_area();
+    let (impl_radius, sarea) = st.radius_area();
+    // the oracles below use a reach computed from the items alone (never less than the implementation's own radius)
+    let orad = oracle_radius(&items);
+    let radius = if orad.is_finite() && orad > impl_radius { orad } else { impl_radius };
     // ---------------- C02: the area of the shape
     match &items {
         Items::Segs(v) => {
@@ -855,7 +867,7 @@ pub fn run_state_case(spec: &Spec, out: &mut dyn Write) -> GeomOut {
             }
         }
     }
-    writeln!(out, "Q {} {}", hex(radius), hex(sarea)).unwrap();
+    writeln!(out, "Q {} {}", hex(impl_radius), hex(sarea)).unwrap();
     for m in rel.iter() {
         writeln!(out, "r {}", hex9(m)).unwrap();
     }
@@ -1024,8 +1036,22 @@ pub fn run_state_case(spec: &Spec, out: &mut dyn Write) -> GeomOut {
             let mut worst: f64 = f64::INFINITY;
             let mut worst_at = (0usize, 0usize, 0i64, 0i64);
             let mut collinear = false;
-            for (i, p) in cart.iter().enumerate() {
-                for (j, q) in cart.iter().enumerate() {
+            // the copies the GROUP requires for this site (International Tables), not the placements the code produced:
+            // operation k of the group applied to the site, wrapped into the cell, in Cartesian coordinates
+            let ocart: Vec<M9> = if !multi && finite_site {
+                ops.iter()
+                    .map(|(l, t)| {
+                        let w = |v: f64| v - (v + 0.5).floor();
+                        let (fx, fy) = (w(l[0] * sx + l[1] * sy + t[0]), w(l[2] * sx + l[3] * sy + t[1]));
+                        [l[0] * cphi + l[1] * sphi, -l[0] * sphi + l[1] * cphi, fx * ax + fy * bx,
+                         l[2] * cphi + l[3] * sphi, -l[2] * sphi + l[3] * cphi, fy * by, 0., 0., 1.]
+                    })
+                    .collect()
+            } else {
+                cart.clone()
+            };
+            for (i, p) in ocart.iter().enumerate() {
+                for (j, q) in ocart.iter().enumerate() {
                     for nn in -kstar..=kstar {
                         for mm in -kstar..=kstar {
                             if nn == 0 && mm == 0 && j <= i {
@@ -1428,6 +1454,40 @@ pub fn run_state_case(spec: &Spec, out: &mut dyn Write) -> GeomOut {
         overlap_note
     );
     let _ = PI;
+    // ---------------- C01, directed search: the implementation's enclosing radius is smaller than the shape's reach.
+    // check_intersection only compares copies whose centres are within twice that radius, so pairs of copies whose centres
+    // are between 2 x (its radius) and 2 x (the reach) apart are never compared: such states are built here (two copies of
+    // the p2 group in a large cell, at every mutual orientation) and put through the monitors above.
+    if !spec.kv.contains_key("probe") && !matches!(items, Items::Ljs(_)) && orad.is_finite() && impl_radius.is_finite()
+        && impl_radius > 0. && orad > impl_radius * (1. + 1e-9) && !f.iter().any(|x| x.property.contains("C01")) {
+        let mut seed: u64 = spec.text.bytes().fold(0xcbf29ce484222325u64, |h, b| (h ^ b as u64).wrapping_mul(0x100000001b3));
+        let mut rnd = || {
+            seed = seed.wrapping_mul(6364136223846793005).wrapping_add(1442695040888963407);
+            ((seed >> 11) as f64) / ((1u64 << 53) as f64)
+        };
+        let len = 20. * orad;
+        'probe: for t in 0..600 {
+            let d = 2. * impl_radius + 2. * (orad - impl_radius) * (0.02 + 0.96 * rnd());
+            let th = 2. * PI * rnd();
+            let ph = 2. * PI * rnd();
+            let text = format!(
+                "geom id={}-probe{} probe=1 kind=hard group=p2 shape={} len={:?} ratio=1.0 angle={:?} x={:?} y={:?} phi={:?} k=1 zero=0 idx=0",
+                spec.get_or("id", "case"), t, spec.get("shape"), len, PI / 2., 0.5 * d * th.cos() / len, 0.5 * d * th.sin() / len, ph);
+            let mut sink: Vec<u8> = vec![];
+            let o = match catch_unwind(AssertUnwindSafe(|| run_state_case(&Spec::parse(&text), &mut sink))) {
+                Ok(o) => o,
+                Err(_) => continue,
+            };
+            for x in o.findings.into_iter() {
+                if x.property.contains("C01") {
+                    add(&mut f, "C01", format!(
+                        "{} [found by the directed search started because enclosing_radius() = {:?} is less than the reach {:?} of the shape; state: {}]",
+                        x.what, impl_radius, orad, text));
+                    break 'probe;
+                }
+            }
+        }
+    }
     GeomOut { findings: f, meta }
 }
 
